@@ -4,6 +4,7 @@ import Modbus.Driver.Split
 import Modbus.Driver.Extract
 import Modbus.Driver.Client
 import Modbus.Driver.Asm
+import Modbus.Driver.Conc
 import Std.Data.HashSet
 import Std.Data.HashMap
 /-
@@ -21,6 +22,8 @@ open Modbus Modbus.Driver
 
 structure Family where
   modelOut : String
+  /-- schedule-dependent operations: the model validates the observed history (trace replay) -/
+  modelOf : Option (String → String) := none
   kf : Option String
   expect : String → Expect
   kind : String
@@ -49,7 +52,15 @@ def dispatch (prop : String) (ts : List String) : Option Family :=
             match parseAsmOp ts with
             | some op => some { modelOut := op.modelOut, kf := op.kf prop, expect := op.judge prop,
                                 kind := "asm:" ++ (ts.getD 1 "?") }
-            | none => none
+            | none =>
+              match parseConcOp ts with
+              | some op => some { modelOut := "", modelOf := some op.modelOf, kf := none, expect := op.judge prop,
+                                  kind := "conc:" ++ (ts.getD 1 "?") }
+              | none =>
+                match parseLockOp ts with
+                | some op => some { modelOut := "", modelOf := some id, kf := none, expect := op.judge prop,
+                                    kind := "lockfacts" }
+                | none => none
 
 structure St where
   lines : Nat := 0
@@ -99,7 +110,9 @@ partial def loop (prop : String) (h : IO.FS.Stream) (st : St) : IO St := do
     IO.println s!"BAD\t{line}"
     loop prop h { st with lines := st.lines + 1, bad := st.bad + 1 }
   | some fam =>
-    let m := fam.modelOut
+    let m := match fam.modelOf with
+      | some f => f goOut
+      | none => fam.modelOut
     let e := fam.expect goOut
     let holds := e.holds goOut
     let isConstrained := match e with
